@@ -496,6 +496,9 @@ def check_dicke(ctx):
 
 
 def run(ctx):
+    from ..lints import check_caches
+
+    check_caches(ctx, "C12-D3 who-writes", ['wavefunction'])
     check_dicke(ctx)
     ctx.floor("C12-D7", 7)
     check_bit_reversal(ctx)
